@@ -12,7 +12,7 @@
   input of the operations; the model is tied to the binary by predicting blame at every tip of the
   end-to-end scenarios (vlib/props/c02.py, correspondence:rewrite-e2e).
 -/
-import GitAiModel.Lemmas.RewriteTyped
+import GitAiModel.Lemmas.RewriteStop
 import GitAiModel.Extracted.RewriteHooks
 namespace GitAi.Sys
 
@@ -69,6 +69,8 @@ def ValidROp (root : List Nat) (r : RSpec) : ROp → Prop
   | .reset k _ => ResetOK r.sp k
   | .replay drop mid (some (l, n)) news => ReplayOK root r.sp drop mid news.length l n news
   | .replay drop mid none news => ReplayOK root r.sp drop mid drop r.sp.st.log r.sp.st.notes news
+  | .replayR res drop mid (some (l, n)) news => ReplayOKR root r.sp res drop mid news.length l n news
+  | .replayR res drop mid none news => ReplayOKR root r.sp res drop mid drop r.sp.st.log r.sp.st.notes news
   | .squash l n ys => SquashOK r.sp l n ys
   | .switchCarry l n h => SwitchOK root r.sp l n h
   | .switchMerge l n h ys => SwitchMergeOK root r.sp l n h ys
@@ -128,6 +130,10 @@ theorem rspecStep_inv (root : List Nat) (r : RSpec) (op : ROp) (h : RInv2 root r
   | switchCarry l n hd => exact ⟨h.switchCarry l n hd hv, hs⟩
   | switchMerge l n hd ys => exact ⟨h.switchMerge l n hd ys hv, hs⟩
   | aborted => exact ⟨h, hs⟩
+  | replayR res drop mid src news =>
+    cases src with
+    | none => exact ⟨h.replayR res drop mid drop _ _ news hv, hs⟩
+    | some ln => obtain ⟨l, n⟩ := ln; exact ⟨h.replayR res drop mid news.length l n news hv, hs⟩
   | typed who ids =>
     have hg : ∀ y ∈ r.sp.seen, (fun y => if y ∈ r.sp.seen then r.sp.g y else if y ∈ ids then who else r.sp.g y) y = r.sp.g y ∧
         y ∈ ids ++ r.sp.seen := fun y hy => ⟨by simp [hy], List.mem_append_right _ hy⟩
@@ -219,26 +225,86 @@ theorem replay_never_invents (g : Nat → Author) (root : List Nat) (srcLog : Li
     (hs : replayCredit k srcLog srcNotes y = some s) : g y = some s :=
   replayCredit_sound h hwf k y s hs
 
-/-- **conflict continuation (partial).** A line typed while the operation is stopped at a conflict is
-    new to every table of the lookup: the replay credits it to nobody. With `rspecStep_inv` this gives
-    `rewrite_preserves_attribution` for `[.typed none ids, .replay …]` (a person resolves the conflict)
-    with no further hypothesis on the typed lines. FULL statement wanted: the same for `.typed (some s)`
-    (an agent resolves the conflict and reports a checkpoint) — false for the code as it is, see
-    `witness_agent_resolution_line_lost`; the missing hypothesis is `who = none`. -/
+/-- **lines typed while the operation is stopped.** A line typed during the stop is new to every table
+    of the replay lookup (`replayCredit … y = none`, first conjunct). When the checkpoint that reported
+    it was recorded — the file was not unmerged any more, or never was — the working log of the commit the
+    operation stopped on holds the claim (`stopClaims who ids`), and the replay of the continued
+    operation (`replayR`, rebase_authorship.rs:credit_lines_recorded_while_stopped) answers exactly who
+    typed it: the agent's session, or nobody for a person. That is the ghost author the `typed` step
+    records (third conjunct), so the `NewsOK` hypothesis of `ReplayOKR` holds for the typed lines with no
+    further assumption, and `blame_matches_ghost` / `rewrite_preserves_attribution` cover
+    `[.typed who ids, .replayR (stopClaims who ids) …]` for every `who`. -/
+theorem resolution_line_credit (root : List Nat) (r : RSpec) (h : RInv2 root r) (k y : Nat) (who : Author)
+    (ids : List Nat) (hy : y ∈ ids) (hn : y ∉ r.sp.seen) :
+    replayCredit k r.sp.st.log r.sp.st.notes y = none ∧
+    stopCredit (stopClaims who ids) (replayCredit k r.sp.st.log r.sp.st.notes) y = who ∧
+    (rspecStep r (.typed who ids)).sp.g y = who := by
+  have h0 := replayCredit_unseen h.1 k y hn
+  refine ⟨h0, stopCredit_typed who ids _ y hy h0, ?_⟩
+  simp [rspecStep, hn, hy]
+
+/-- the stop changes nothing for the other lines: they go through the lookup as in a replay that never
+    stopped, and an answer is never invented (a recorded claim or the lookup) -/
+theorem resolution_other_lines (who : Author) (ids : List Nat) (orig : Nat → Author) (y : Nat) (hy : y ∉ ids) :
+    stopCredit (stopClaims who ids) orig y = orig y := stopCredit_untyped who ids orig y hy
+
+theorem resolution_never_invents (res : List (Nat × Nat)) (orig : Nat → Author) (y s : Nat)
+    (h : stopCredit res orig y = some s) : res.lookup y = some s ∨ orig y = some s :=
+  stopCredit_sound res orig y s h
+
+/-- a replay that never stopped is the replay with no recorded claim -/
+theorem replayR_nil (drop : Nat) (mid : List ((List Nat × List Nat) × Note))
+    (src : Option (List (List Nat × List Nat) × List Note)) (news : List (List Nat)) (r : RState) :
+    rstep r (.replayR [] drop mid src news) = rstep r (.replay drop mid src news) := by
+  cases src with
+  | none => rfl
+  | some ln => rfl
+
+/-- **conflict continuation, the part that stays (partial).** FULL statement wanted: the credit of
+    `resolution_line_credit` for every line an agent types during the stop. Missing hypothesis: the
+    checkpoint was RECORDED. A checkpoint for a file that is still unmerged (the agent edits the
+    conflicted file and reports before `git add`) records nothing (checkpoint.rs:get_status_of_files skips
+    `EntryKind::Unmerged`; pinned by the unit tests test_checkpoint_skips_conflicted_files and
+    test_checkpoint_works_after_conflict_resolution_maintains_authorship), so no working log holds a
+    claim, the operation is replayed with `res = []` and the line is nobody's. -/
 theorem resolution_line_credit_partial (root : List Nat) (r : RSpec) (h : RInv2 root r) (k y : Nat)
-    (hy : y ∉ r.sp.seen) : replayCredit k r.sp.st.log r.sp.st.notes y = none :=
+    (hy : y ∉ r.sp.seen) : stopCredit [] (replayCredit k r.sp.st.log r.sp.st.notes) y = none :=
   replayCredit_unseen h.1 k y hy
 
-/-- the excluded region, decided: session 2 resolves the conflict of a rebase and types line `11`
-    (checkpoint reported); after `--continue` the rebased commit contains `11`, its ghost author is
-    session 2, blame says nobody. (Replayed on the binary: template `conflict-continue`, finding
-    `rebase-conflict-continue:surviving-ai-line-lost:typed-by-agent-during-resolution`.) -/
+/-- the excluded region, decided: session 2 resolves the conflict of a rebase in the conflicted file and
+    types line `11`; its checkpoint comes before `git add` and is skipped; after `--continue` the rebased
+    commit contains `11`, its ghost author is session 2, blame says nobody. (Replayed on the binary:
+    template `conflict-continue`, variant edit-then-add, finding
+    `rebase-conflict-continue:surviving-ai-line-lost:typed-by-agent-in-unmerged-file`.) -/
 theorem witness_agent_resolution_line_lost :
     let r := rspecRun ⟨cleanSpec [1, 2, 3] (fun _ => none), [], []⟩
       [.base (.aiEdit 1 [1, 9, 3]), .base .stageAll, .base .commit, .typed (some 2) [11],
-       .replay 1 [(([1, 7, 3], [1, 2, 3]), [])] none [[1, 7, 9, 11, 3]]]
+       .replayR [] 1 [(([1, 7, 3], [1, 2, 3]), [])] none [[1, 7, 9, 11, 3]]]
     r.sp.st.head = [1, 7, 9, 11, 3] ∧ r.sp.g 11 = some 2 ∧ blame r.sp.st.log r.sp.st.notes 11 = none ∧
     blame r.sp.st.log r.sp.st.notes 9 = some 1 := by decide
+
+/-- **the recorded checkpoint (regression).** The same history with the checkpoint recorded (the agent
+    types after `git add`, or into a file that had no conflict): the working log of the commit the rebase
+    stopped on claims `11` for session 2 and the rebased commit's note credits it. Before the repair
+    (`fix:` credit_lines_recorded_while_stopped) that working log was never read: blame said nobody
+    (the run above, which is also what `replay` without claims gives). -/
+theorem regression_agent_resolution_line_credited :
+    let r := rspecRun ⟨cleanSpec [1, 2, 3] (fun _ => none), [], []⟩
+      [.base (.aiEdit 1 [1, 9, 3]), .base .stageAll, .base .commit, .typed (some 2) [11],
+       .replayR (stopClaims (some 2) [11]) 1 [(([1, 7, 3], [1, 2, 3]), [])] none [[1, 7, 9, 11, 3]]]
+    r.sp.st.head = [1, 7, 9, 11, 3] ∧ r.sp.g 11 = some 2 ∧ blame r.sp.st.log r.sp.st.notes 11 = some 2 ∧
+    blame r.sp.st.log r.sp.st.notes 9 = some 1 ∧ blame r.sp.st.log r.sp.st.notes 7 = none := by decide
+
+/-- that history satisfies the hypotheses of `blame_matches_ghost` (non-vacuity of `replayR` with a
+    recorded agent claim; `7` is the upstream author's line) -/
+example : ValidROps [1, 2, 3] ⟨cleanSpec [1, 2, 3] (fun _ => none), [], []⟩
+    [.base (.aiEdit 1 [1, 9, 3]), .base .stageAll, .base .commit,
+     .typed none [7], .typed (some 2) [11],
+     .replayR (stopClaims (some 2) [11]) 1 [(([1, 7, 3], [1, 2, 3]), [])] none [[1, 7, 9, 11, 3]]] := by
+  refine ⟨?_, trivial, ?_, trivial, trivial, ?_, trivial⟩
+  · exact ⟨by decide, by decide⟩
+  · exact ⟨⟨by decide, by decide⟩, by decide, by decide⟩
+  · exact ⟨by decide, by decide, by decide, by decide, by decide⟩
 
 /-- the same history with a person resolving the conflict satisfies the hypotheses (non-vacuity of the
     conflict continuation inside `blame_matches_ghost` / `rewrite_preserves_attribution`) -/
@@ -442,7 +508,12 @@ end GitAi.RJ
 #print axioms GitAi.Sys.rewrite_preserves_attribution
 #print axioms GitAi.Sys.replay_credit_from_source
 #print axioms GitAi.Sys.replay_never_invents
+#print axioms GitAi.Sys.resolution_line_credit
+#print axioms GitAi.Sys.resolution_other_lines
+#print axioms GitAi.Sys.resolution_never_invents
+#print axioms GitAi.Sys.replayR_nil
 #print axioms GitAi.Sys.resolution_line_credit_partial
+#print axioms GitAi.Sys.regression_agent_resolution_line_credited
 #print axioms GitAi.Sys.witness_agent_resolution_line_lost
 #print axioms GitAi.Sys.regression_block_of_several_authors
 #print axioms GitAi.Sys.regression_line_rewritten_later
